@@ -218,6 +218,9 @@ func c10Step(el *[c10E]*secp256k1.Element, sc *[c10S]*secp256k1.Scalar, m c10Mod
 		case "SetUInt64(3)":
 			r.SetUInt64(3)
 			nm.s[o.i] = big.NewInt(3)
+		case "SetSparse":
+			err = r.Decode(ref.Bytes32(c10Sparse))
+			nm.s[o.i] = c10Sparse
 		case "Square":
 			r.Square()
 			nm.s[o.i] = ref.Zn.Sqr(m.s[o.i])
